@@ -867,6 +867,9 @@ func suiteLiterals(r *Rng, n int, thorough bool, o *Out) {
 	}
 	_ = typ.AddRel(jsonapi.Rel{FromType: "t", FromName: "one", ToOne: true, ToType: "t"})
 	_ = typ.AddRel(jsonapi.Rel{FromType: "t", FromName: "many", ToOne: false, ToType: "t"})
+	_ = typ.AddRel(jsonapi.Rel{FromType: "t", FromName: "one2", ToOne: true, ToType: "t"})
+	_ = typ.AddRel(jsonapi.Rel{FromType: "t", FromName: "one3", ToOne: true, ToType: "t"})
+	_ = typ.AddRel(jsonapi.Rel{FromType: "t", FromName: "many2", ToOne: false, ToType: "t"})
 	_ = s.AddType(typ)
 	ts := []stype{{typ, false}}
 	ssx := sxSSchema(ts)
@@ -939,13 +942,37 @@ func suiteLiterals(r *Rng, n int, thorough bool, o *Out) {
 		emitOne(name, lit)
 	}
 	// relationship linkage: exact IDs (repeats kept), linkage type = target type, re-marshal
+	relNames := []string{"one", "many", "one2", "one3", "many2"}
 	for c := 0; c < n/3+1; c++ {
-		relName := []string{"one", "many"}[r.IntN(2)]
-		obj := linkageText(r, typ.Rels[relName], o)
-		data := []byte(`{"id":"1","type":"t","relationships":{"` + relName + `":` + obj + `}}`)
+		// one relationship, or several at once (each decoded on its own: what one holds
+		// must not depend on the others, in whatever order the map is ranged over)
+		k := 1
+		if r.bool() {
+			k = 2 + r.IntN(4)
+		}
+		perm := r.Perm(len(relNames))
+		names := make([]string, 0, k)
+		objs := map[string]string{}
+		members := make([]string, 0, k)
+		for _, i := range perm[:k] {
+			name := relNames[i]
+			obj := linkageText(r, typ.Rels[name], o)
+			names = append(names, name)
+			objs[name] = obj
+			members = append(members, `"`+name+`":`+obj)
+		}
+		if k > 1 {
+			o.stat("linkage.several")
+		}
+		data := []byte(`{"id":"1","type":"t","relationships":{` + strings.Join(members, ",") + `}}`)
 		obs, pv, res := runUnmarshalRes("UnmarshalResource", data, s, false)
 		if res != nil {
-			pv = linkageVerdict(res, relName, typ.Rels[relName], obj)
+			for _, name := range names {
+				if m := linkageVerdict(res, name, typ.Rels[name], objs[name]); m != "ok" {
+					pv = m + " (" + name + ")"
+					break
+				}
+			}
 		}
 		o.emit(lst("unm", "res", ssx, sxResSke(data)), obs, pv)
 	}
